@@ -152,6 +152,9 @@ pub fn run(ctx: &Ctx) -> Report {
                     let keep = if ctx.quick() {
                         // saw-tooth x small periods is where drift shows first: always keep those for WMA/SMA/SD
                         let hot = matches!(regime, Regime::Saw(_)) && n <= 7 && matches!(kind, Kind::Wma | Kind::Sma | Kind::Sd | Kind::Bb) && mi == 1;
+                        // MIN/MAX on ulp noise and on the tick grid at the lowest band (prices around 1, where an
+                        // absolute epsilon is larger than an ulp): always run
+                        let hot = hot || (matches!(regime, Regime::UlpNoise | Regime::Ticks) && matches!(kind, Kind::Min | Kind::Max) && n <= 14 && mi == 0);
                         hot || (!heavy && rng.chance(0.08)) || (heavy && rng.chance(0.04))
                     } else {
                         !heavy || (ri + mi) % 5 == 0
